@@ -1,4 +1,5 @@
 import TensorModel.Proofs.Iter
+import TensorModel.Proofs.CoreEq
 /-!
   C05 — iterators visit every logical element exactly once, in logical order.
   Property theorems only; helper lemmas live in `TensorModel/Proofs/Iter.lean`.
@@ -91,5 +92,21 @@ example : WFit { shape := [2, 3], strides := [1, 2] } := by
   · rfl
   · intro d hd; simp at hd; omega
 example : FlatIt.offsets { shape := [2, 3], strides := [1, 2] } = [0, 2, 4, 1, 3, 5] := by decide
+
+/-! ## the source of the fast-path decision
+
+`newFlatIterator` takes the single-counter fast path when `AP.IsVectorLike` holds (shape vector-like and
+all strides one). The shape part is `shape.go:Shape.IsVectorLike`; its source, translated by `tools/gol`
+on this run, is the model predicate used in `ndNext_run` / `single_run`. -/
+
+theorem IsVectorLike_source (s : Shape) : Gen.Shape_IsVectorLike s = .ok (isVectorLike s) :=
+  Gen.Shape_IsVectorLike_eq s
+
+/-- stated outright: the source answers "at most one axis differs from 1" -/
+theorem IsVectorLike_source_spec (s : Shape) :
+    Gen.Shape_IsVectorLike s = .ok (decide ((s.filter (· != 1)).length ≤ 1)) := by
+  rw [IsVectorLike_source]; rfl
+
+example : Gen.clsV (Gen.Shape_IsVectorLike [1, 5, 1]) = .val true ∧ Gen.clsV (Gen.Shape_IsVectorLike [2, 5, 1]) = .val false := by decide
 
 end TM.C05
